@@ -1186,7 +1186,7 @@ class Interp:
         lc = self.loop_contracts.get(key) if key else None
         if lc is not None:
             return self.cut_loop(st, frame, key, lc, it)
-        if hasattr(it, "sym_len") and not isinstance(it.sym_len(self), int):
+        if hasattr(it, "sym_len") and not isinstance(it, self.bm.GList) and not isinstance(it.sym_len(self), int):
             # symbolic-length iterable without contract: unroll while feasible
             n = it.sym_len(self)
             k = 0
@@ -1202,6 +1202,34 @@ class Interp:
                     broke = True
                     break
                 except ContinueEx:
+                    continue
+            if not broke:
+                self.exec_block(st.orelse, frame)
+            return
+        if isinstance(it, self.bm.GList):
+            broke = False
+            for g, x in it.items:
+                self.assign(st.target, x, frame)
+                if g is True:
+                    try:
+                        self.exec_block(st.body, frame)
+                    except BreakEx:
+                        broke = True
+                        break
+                    except ContinueEx:
+                        continue
+                    continue
+                try:
+                    self.exec_block(st.body, frame)
+                except ContinueEx:
+                    continue
+                except (PyRaise, ReturnEx, BreakEx) as ex:
+                    # speculative body of a guarded element: leaving the loop is real iff the element exists
+                    if self.decide(g, "guarded-loop-exit"):
+                        if isinstance(ex, BreakEx):
+                            broke = True
+                            break
+                        raise
                     continue
             if not broke:
                 self.exec_block(st.orelse, frame)
@@ -1539,12 +1567,15 @@ class Interp:
                     return last
             return last
         last = None
-        for x in e.values:
+        n = len(e.values)
+        for i, x in enumerate(e.values):
             last = self.eval(x, frame)
+            if i == n - 1:
+                return last          # python: the last operand is the value, no truth test
             t = self.truth(last)
             if t != is_and:
                 return last if not isinstance(last, Sym) else (not is_and)
-        return last if not isinstance(last, Sym) else is_and
+        return last
 
     def e_UnaryOp(self, e, frame):
         v = self.eval(e.operand, frame)
@@ -1716,16 +1747,49 @@ class Interp:
 
     # comprehensions
     def _comp(self, gens, frame, emit):
+        """emit(cframe, guard): guard is True, or (guarded-collections mode) the SymBool under which the element exists"""
         cframe = Frame("comp", frame.module, frame, frame.func)
         cframe.self_ = frame.self_
         cframe.qualname = getattr(frame, "qualname", "")
+        guarded = getattr(self, "guarded", False)
+        GList, GDict = self.bm.GList, self.bm.GDict
 
-        def rec(i):
+        def filters(g, guard):
+            """-> new guard or None (element filtered out)"""
+            for c in g.ifs:
+                try:
+                    v = self.eval(c, cframe)
+                except PyRaise:
+                    # the filter of a guarded element raises: real iff the element exists
+                    if guard is True or self.decide(guard, "guarded-filter-raises"):
+                        raise
+                    return None
+                if guarded and isinstance(v, SymChoice):
+                    v = v.map(lambda x: bool(x))
+                if guarded and isinstance(v, SymBool):
+                    guard = b_and(guard, v)
+                    if guard is False:
+                        return None
+                    continue
+                if not self.truth(v):
+                    return None
+            return guard
+
+        def rec(i, guard):
             if i == len(gens):
-                emit(cframe)
+                emit(cframe, guard)
                 return
             g = gens[i]
             it = self.eval(g.iter, cframe if i > 0 else frame)
+            if guarded and isinstance(it, GDict):
+                it = it.to_list(self)
+            if guarded and isinstance(it, GList):
+                for eg, x in it.items:
+                    self.assign(g.target, x, cframe)
+                    g2 = filters(g, b_and(guard, eg))
+                    if g2 is not None:
+                        rec(i + 1, g2)
+                return
             if hasattr(it, "sym_len") and not isinstance(it.sym_len(self), int):
                 n = it.sym_len(self)
                 k = 0
@@ -1734,41 +1798,85 @@ class Interp:
                         raise Unsupported("comprehension over symbolic-length iterable needs a summary")
                     self.assign(g.target, it.sym_item(self, k), cframe)
                     k += 1
-                    if all(self.truth(self.eval(c, cframe)) for c in g.ifs):
-                        rec(i + 1)
+                    g2 = filters(g, guard)
+                    if g2 is not None:
+                        rec(i + 1, g2)
                 return
             for x in self.iterate_concrete(it):
                 self.assign(g.target, x, cframe)
-                ok = True
-                for c in g.ifs:
-                    if not self.truth(self.eval(c, cframe)):
-                        ok = False
-                        break
-                if ok:
-                    rec(i + 1)
+                g2 = filters(g, guard)
+                if g2 is not None:
+                    rec(i + 1, g2)
 
-        rec(0)
+        rec(0, True)
+
+    @staticmethod
+    def _simple_elt(n):
+        if isinstance(n, (ast.Name, ast.Constant)):
+            return True
+        if isinstance(n, (ast.Tuple, ast.List)):
+            return all(Interp._simple_elt(x) for x in n.elts)
+        if isinstance(n, ast.Dict):
+            return all(Interp._simple_elt(x) for x in list(n.keys) + list(n.values) if x is not None)
+        if isinstance(n, ast.Subscript):
+            return Interp._simple_elt(n.value) and Interp._simple_elt(n.slice)
+        if isinstance(n, ast.Attribute):
+            return Interp._simple_elt(n.value)
+        if isinstance(n, ast.JoinedStr):
+            return all(isinstance(v, ast.Constant) or (isinstance(v, ast.FormattedValue) and Interp._simple_elt(v.value)) for v in n.values)
+        return False
 
     def e_ListComp(self, e, frame):
         out = []
-        self._comp(e.generators, frame, lambda cf: out.append(self.eval(e.elt, cf)))
-        return out
+        any_guard = [False]
+        simple = self._simple_elt(e.elt)
+
+        def emit(cf, guard):
+            if guard is True:
+                out.append((True, self.eval(e.elt, cf)))
+            elif simple:
+                any_guard[0] = True
+                out.append((guard, self.eval(e.elt, cf)))
+            else:
+                # speculative guarded construction: the element expression is evaluated without forking on
+                # its guard; only an exception forks (it is real iff the guard can hold)
+                try:
+                    v = self.eval(e.elt, cf)
+                except PyRaise:
+                    if self.decide(guard, "guarded-construction-raises"):
+                        raise
+                    return
+                any_guard[0] = True
+                out.append((guard, v))
+
+        self._comp(e.generators, frame, emit)
+        if any_guard[0]:
+            return self.bm.GList(out)
+        return [v for _, v in out]
 
     e_GeneratorExp = e_ListComp
 
     def e_SetComp(self, e, frame):
-        out = []
-        self._comp(e.generators, frame, lambda cf: out.append(self.eval(e.elt, cf)))
-        return set(out)
+        return set(self.e_ListComp(e, frame))
 
     def e_DictComp(self, e, frame):
-        out = {}
+        out = self.bm.GDict()
 
-        def emit(cf):
+        def emit(cf, guard):
             k = self.eval(e.key, cf)
             if isinstance(k, Sym):
                 raise Unsupported("symbolic dict key")
-            out[k] = self.eval(e.value, cf)
+            v = self.eval(e.value, cf)
+            if guard is not True and not (self._simple_elt(e.value)):
+                if not self.decide(guard, "guarded-construction"):
+                    return
+                guard = True
+            if k in out.entries and guard is True:
+                out.entries[k] = (True, v)
+            else:
+                out.put(k, guard, v)
 
         self._comp(e.generators, frame, emit)
+        if all(g is True for g, _ in out.entries.values()):
+            return {k: v for k, (g, v) in out.entries.items()}
         return out
